@@ -15,10 +15,16 @@
 (*   ValueEq = FALSE  senders / values compared by Go `==` on decoded requests (RPC):    *)
 (*                    never equal; senderTimes keyed by pointer: the filter never fires  *)
 (*   Filter  = FALSE  no sender-time filter (LocalReplicaHandle calls receiveInternal)   *)
-(* The repaired protocol is ValueEq = TRUE, Filter = TRUE on both transports.            *)
+(*   CommitRetry = FALSE  a Commit that met a transport error is not sent again once the *)
+(*                    proposer's own version moved                                        *)
+(* The repaired protocol is ValueEq = TRUE, Filter = TRUE, CommitRetry = TRUE on both     *)
+(* transports.                                                                            *)
 EXTENDS Integers, Sequences, FiniteSets, TLC
 
 CONSTANTS Nodes, Writers, MaxSect, MaxVer, DropBudget, DupBudget, Filter, ValueEq, SoloTries,
+          CommitRetry,  \* TRUE (repaired): a Commit that met an error is sent again until a newer version supersedes it;
+                        \* FALSE (pinned tree): only while the proposer's own version is unchanged, i.e. never once the
+                        \* commit completed locally -- a replica that misses one Commit stays captured
           SplitPC       \* TRUE: the call of PreCommit and the doPreCommit region are separate steps (back-off sleep)
 
 VARIABLES value, oldValue, version, cs, tpc, acc, stimes, attempts, clock,   \* per node (Go fields)
@@ -325,9 +331,11 @@ Release(r) ==
   /\ act' = <<"rel">> \o Tag(r) \o <<IF r.err THEN "err" ELSE IF r.acc THEN "acc" ELSE "rej">>
   /\ UNCHANGED <<acc, stimes, clock, op, bc, ov, sect, drops, dups, ghostvars, solovars>>
 
+ShouldRetry(m) == IF CommitRetry /\ m.type = "Commit" THEN version[m.from] <= m.ver ELSE version[m.from] = m.ov
+
 Wake(m) ==
   /\ m \in reqs /\ m.sl
-  /\ IF version[m.from] = m.ov
+  /\ IF ShouldRetry(m)
        THEN /\ reqs' = (reqs \ {m}) \cup {[m EXCEPT !.sl = FALSE]}
             /\ act' = <<"wake">> \o Tag(m) \o <<"resend">>
             /\ UNCHANGED <<need, rem>>
